@@ -128,6 +128,18 @@ Proof. exact diff_empty_iff_eq_new. Qed.
 Theorem C20_swap_xy : forall a, exists s, swap_xy a = Ok s /\ forall x y, get_pixel s (P x y) = get_pixel a (P y x).
 Proof. exact swap_xy_spec. Qed.
 
+Theorem C20_map : forall f a,
+  exists t, map_display f a = Ok t /\
+    forall p, get_pixel t p = match get_pixel a p with Ok c => Ok (option_map f c) | Panic k => Panic k end.
+Proof. exact map_display_spec. Qed.
+
+Theorem C20_from_points : forall l c,
+  (forallb in_displayb l = false -> from_points l c = Panic PSetPixel) /\
+  (forallb in_displayb l = true ->
+     exists d, from_points l c = Ok d /\
+       forall p, get_pixel d p = Ok (if existsb (point_eqb p) l then Some c else None)).
+Proof. exact from_points_spec. Qed.
+
 (* ---- patterns and Debug ------------------------------------------------------------------------------ *)
 Theorem C20_colour_to_char_and_back : forall m v,
   In m all_mappings -> In v (colset m) ->
